@@ -37,8 +37,9 @@ example : (Rx.cat (.star (.alt (.single [(0, 2 ^ 97)]) (.single [(1, 2 ^ 98)])))
 (so the soundness of the checker does not depend on how much they normalise). -/
 theorem smart_constructors_spec (a b : Rx) (w : List Letter) :
     (L (mkCat a b) w ↔ L (.cat a b) w) ∧ (L (mkAlt a b) w ↔ L a w ∨ L b w) ∧
-    (L (mkAnd a b) w ↔ L (.and a b) w) :=
-  ⟨L_mkCat a b w, L_mkAlt a b w, L_mkAnd a b w⟩
+    (L (mkAnd a b) w ↔ L (.and a b) w) ∧ (L (mkStar a) w ↔ L (.star a) w) ∧
+    (L (norm a) w ↔ L a w) :=
+  ⟨L_mkCat a b w, L_mkAlt a b w, L_mkAnd a b w, L_mkStar a w, L_norm a w⟩
 
 /-- Every marker carried by a word of the language is 0 or is written in the expression:
 `mark`/`Single` are the only sources of markers. -/
@@ -75,9 +76,10 @@ theorem checkEquivWith_sound (A : Dfa) (r : Rx) (c : Cert (Option Nat) Rx)
   rw [accepts_eq_acceptsMarked]
   by_cases hm : ∀ a ∈ w, a.2 ∈ c.markers
   · have := verifyCert_sound (dfaMachine A) rxMachine (dfaMachine_sameSound A) rxMachine_sameSound
-      (some A.init) r c hv w (fun a ha => ⟨hw a ha, hm a ha⟩)
+      (some A.init) (Rx.norm r) c hv w (fun a ha => ⟨hw a ha, hm a ha⟩)
     simp only [dfaMachine, rxMachine] at this
-    rw [Dfa.acceptsMarked, this, foldl_deriv_eq_derivs, ← matches_iff_mem r w, Rx.matches]
+    rw [Dfa.acceptsMarked, this, foldl_deriv_eq_derivs, ← L_norm r w,
+      ← matches_iff_mem (Rx.norm r) w, Rx.matches]
   · have hex : ∃ a ∈ w, a.2 ∉ c.markers := by
       simpa using hm
     have hrej := acceptsMarked_foreign A w c.markers hA hex (some A.init)
